@@ -129,7 +129,7 @@ def classIdx : List Nat := List.range Gen.C18.nClasses
 /-- offer list of a base-8 code (digit = class + 1, first offer lowest); fuel = number of digits read at most -/
 def decOff : Nat → Nat → List Nat
   | 0, _ => []
-  | f + 1, n => if n == 0 then [] else (n % 8 - 1) :: decOff f (n / 8)
+  | f + 1, n => if n == 0 then [] else (if n % 8 == 0 then 99 else n % 8 - 1) :: decOff f (n / 8)   -- a 0 digit inside a code is no class
 
 /-- every offer list of the tabulated domain (length ≤ maxLen, no repetition), in table order -/
 def allOffers : List (List Nat) := Gen.C18.offerCodes.map (decOff (Gen.C18.maxLen + 1))
